@@ -144,9 +144,14 @@ def modelStep (st : St) (toks : List String) : St × String :=
     | none => (st, "bad-op")
   | ["udp.ready"] =>
     (st, "r=" ++ String.join (w.udp.map fun e => if !e.rcvList.isEmpty || e.rcvClosed then "1" else "0"))
-  | ["inject", nic, pr, src, dst, sp, dp, ul, pl] =>
+  | ["inject", nic, pr, src, dst, sp, dp, ul, pl, fr] =>
     match nic.toNat?, hexN src, hexN dst, sp.toNat?, dp.toNat?, ul.toNat?, hexN pl with
     | some nic, some src, some dst, some sp, some dp, some ul, some pl =>
+      -- reassembly state lives in the network endpoint of the destination address; for a destination
+      -- accepted only through promiscuous mode / an owned subnet that endpoint is temporary and dies
+      -- between fragments, so a fragmented datagram to such an address is never completed
+      let assigned := match w.nic nic with | some n => n.addrs.any (fun p => p.2 == dst) | none => false
+      if fr == "1" && !assigned then ret w "-" else
       let (w', _) := deliverUdp w nic (protoOf pr) src dst sp dp ul pl
       ret w' "-"
     | _, _, _, _, _, _, _ => (st, "bad-op")
@@ -265,11 +270,13 @@ def oracleStep (st : St) (toks : List String) (res : String) : St × String :=
     match i.toNat? with
     | some i => ret (setSock o i { (o.socks.getD i {}) with live := false, closedRd := true }) "ok"
     | none => (st, "bad-op")
-  | ["inject", nic, pr, src, dst, sp, dp, ul, pl] =>
+  | ["inject", nic, pr, src, dst, sp, dp, ul, pl, fr] =>
     match nic.toNat?, hexN src, hexN dst, sp.toNat?, dp.toNat?, ul.toNat?, hexN pl with
     | some nic, some src, some dst, some sp, some dp, some ul, some pl =>
       -- a datagram whose UDP length field exceeds the packet is malformed: nobody may get it
       let exp := if ul > pl.length + 8 then none else expectedSock o nic (protoOf pr) src dst sp dp
+      -- fragmented datagrams to addresses that are not assigned (promiscuous / subnet only) are not reassembled
+      let exp := if fr == "1" && !(o.localAddrs.any fun p => p.1 == nic && p.2 == dst) then none else exp
       -- arrivals after the read side was closed are dropped
       let exp := match exp with
         | some i => if (o.socks.getD i {}).closedRd then none else some i
@@ -292,9 +299,12 @@ def oracleStep (st : St) (toks : List String) (res : String) : St × String :=
             -- candidates: not yet returned, same bytes and sender
             -- identical datagrams are interchangeable: prefer one that was meant for this socket
             let same := o.dgrams.filter fun g => !g.consumed && g.payload == data && g.src == fa && g.sport == fp
-            let exact := match same.find? (fun g => g.expect == some i) with
+            -- (a dropped earlier copy must not be mistaken for the one returned now)
+            let exact := match same.find? (fun (g : ODgram) => g.expect == some i && g.idx > s.lastIdx) with
               | some g => some g
-              | none => same.head?
+              | none => match same.find? (fun (g : ODgram) => g.expect == some i) with
+                | some g => some g
+                | none => same.head?
             match exact with
             | none =>
               -- classify: truncated / merged / duplicated / invented
